@@ -134,10 +134,18 @@ theorem SameCore.getitem {a b : Cache K V} (h : SameCore a b) (k : K) :
       rw [Cache.getitem_miss hk hom, Cache.getitem_miss (h5 ▸ hk) (h3 ▸ hom)]
       exact ⟨⟨h1, h2, h3, h4, h5⟩, rfl⟩
     | some f =>
-      rw [Cache.getitem_onMiss hk hom, Cache.getitem_onMiss (h5 ▸ hk) (h3 ▸ hom)]
-      refine ⟨?_, rfl⟩
-      apply SameCore.setitem
-      exact ⟨h1, h2, h3, h4, h5⟩
+      cases hf : f k with
+      | ret v =>
+        rw [Cache.getitem_onMiss hk hom hf, Cache.getitem_onMiss (h5 ▸ hk) (h3 ▸ hom) hf]
+        refine ⟨?_, rfl⟩
+        apply SameCore.setitem
+        exact ⟨h1, h2, h3, h4, h5⟩
+      | keyError =>
+        rw [Cache.getitem_onMiss_keyError hk hom hf, Cache.getitem_onMiss_keyError (h5 ▸ hk) (h3 ▸ hom) hf]
+        exact ⟨⟨h1, h2, h3, h4, h5⟩, rfl⟩
+      | error =>
+        rw [Cache.getitem_onMiss_error hk hom hf, Cache.getitem_onMiss_error (h5 ▸ hk) (h3 ▸ hom) hf]
+        exact ⟨⟨h1, h2, h3, h4, h5⟩, rfl⟩
 
 theorem SameCore.step {a b : Cache K V} (h : SameCore a b) (op : Op K V) :
     SameCore (step a op).1 (step b op).1 ∧ OutCore (step a op).2 (step b op).2 := by
